@@ -450,6 +450,22 @@ def parser_pipeline(prop, tier, fam, whys, sweep=0, cfgname=None, need=('"res":"
                 seen.add(key)
                 behs.append(b)
                 nsim += 1
+        # one parser object used many times: up to 48 parses after up to 3 configuration calls (only the
+        # maximal histories are kept - TLC prints every prefix that ends in a parse)
+        ltext = _re.sub(r"MaxCfg = \d+", "MaxCfg = 3", _re.sub(r"MaxParse = \d+", "MaxParse = 48", text))
+        lcfg = simcfg.replace("_sim_", "_long_")
+        open(lcfg, "w").write(ltext)
+        lres = verif.run_tlc("MC_Parser.tla", lcfg, workers=1, timeout=1800, depth=52,
+                             simulate="num=%d" % (12 if not thorough else 200), tag="MC_Parser-%s-long" % fam)
+        if lres["violated"]:
+            raise ToolError("MC_Parser simulation (%s) reported %s" % (lcfg, lres["violated"]))
+        longs = sorted((b for b in verif.printed_records(lres["out"], "BEH")), key=lambda b: -len(b["ops"]))
+        kept = []
+        for b in longs:
+            if not any(k["ops"][:len(b["ops"])] == b["ops"] for k in kept):
+                kept.append(b)
+        behs.extend(kept)
+        nsim += len(kept)
     beh_path = os.path.join(verif.WORK, "pbeh_%s_%s.ndjson" % (prop, tier))
     toks_path = os.path.join(verif.WORK, "ptoks_%s_%s.json" % (prop, tier))
     verif.write_ndjson(beh_path, behs)
@@ -533,6 +549,16 @@ def check_parser_family(prop, tier):
         r["bad"] += r2["bad"]
         r["samples"] = r["samples"][:2] + r2["samples"][:1]
         r["twall"] += r2["twall"]
+    if conf["fam"] == "c16":
+        # one parser object, the same token presented again (other key, after a footer change, after a
+        # tampered copy): every history of up to 3 parses over a small token table, both parser layers
+        for cn in ("c16r", "c16pr"):
+            r3 = parser_pipeline(prop + cn[3:], tier, "c16" if cn == "c16r" else "c16p", conf["whys"], cfgname=cn)
+            for k in ("states", "transitions", "nbeh", "n", "nparse", "other"):
+                r[k] += r3[k]
+            r["violations"] += r3["violations"]
+            r["bad"] += r3["bad"]
+            r["twall"] += r3["twall"]
     fresh = verif.report(prop, r["violations"], tier)
     coverage = {
         "states": r["states"],
